@@ -586,7 +586,7 @@ def aes_ops(rng, n):
 def gen_ops(rng, tier, exe):
     B = Builder(exe)
     quick = tier == "quick"
-    n = 110 if quick else 2500
+    n = 260 if quick else 6000
     for i in range(n):
         wep_case(rng, B, big=(i % 10 == 0))
     for i in range(int(n * 1.6)):
@@ -596,7 +596,7 @@ def gen_ops(rng, tier, exe):
         for _ in range(2 if quick else 30):
             hostile_case(rng, B, [rng.randint(0, 2400) for _ in range(12)], ccmp)
     hostile_case(rng, B, list(range(0, 40)), False, wep=True)
-    for i in range(60 if quick else 1500):
+    for i in range(140 if quick else 3500):
         handshake_case(rng, B)
     for i in range(2 if quick else 20):
         michael_case(rng, B)
@@ -708,6 +708,21 @@ def run(chk):
         "4-address (WDS) WEP frames: the password is looked up under addr3 as libtins defines it",
         "inner PDU parsers below SNAP are a parameter of the model (instantiated for ARP and unknown ether types)",
     ]
+    chk.extra["modelled_not_proved"] = [
+        "Dot11Beacon / RSNEAPOL parsing and RSNEAPOL::serialize (model only, tied by correspondence: learned PTKs and "
+        "handshake serialisations are compared)",
+        "deriveKeys: PTK layout (sorted addresses / nonces, counter byte) and the MIC-of-message-4 check are modelled with "
+        "HMAC as a parameter; equality with the IEEE PRF-512 is validated against hashlib by the oracle, not proved",
+        "AES-128, SHA-1, MD5, HMAC in Lean (driver only)",
+        "in-place aliasing of the CCMP / RC4 writes (modelled by the bytes written)",
+    ]
+    chk.extra["proved"] = [
+        "crc32 = IEEE CRC-32; RC4 = textbook RC4; WEP/TKIP/CCMP decrypt refine the IEEE decapsulation for all inputs; "
+        "round trips for all keys/IV/PN/payloads/header variants (CCMP for every block function); reject-unless-tag-verifies; "
+        "no fault / no throw for every protected body; TKIP S-box and key mixing = IEEE; capturer completes every "
+        "M1 M2+ M3+ M4 history with arbitrary prefix and interleaving; keys_learned",
+    ]
+    chk.extra["known_finding_theorems"] = {"KF-C09-4": ["tkip_reject_full (def)", "tkip_reject_full_fails", "tkip_reject_partial"]}
     chk.trusted += ["correspondence harness harness/c09_crypto.cpp, reference encryptors harness/c09_ref.h, generators in checks/C09.py",
                     "translator/gen_c09.py (CRC table, TKIP S-box, guard literals from the source)",
                     "g++ 12 / ASan+UBSan build of the repo's working tree; OpenSSL AES_encrypt"]
